@@ -21,15 +21,20 @@ Section S.
   Definition stops_before (a : Z) : Prop :=
     a = 0 \/ exists p cp, last_non_space u code L F (a - 1) = Val p /\ getC code L p = Val cp /\ cp <> cDOT.
 
+  (* the name starting at s follows an attribute dot: the character before it is a dot, and the word before that dot
+     (a maximal identifier run ending right at the dot) does not start with a digit (so the dot does not end a number) *)
+  Definition attr_dot (s : Z) : Prop :=
+    1 < s /\ chr (s - 1) cDOT /\ exists s'' c, name_at s'' (s - 1) /\ chr s'' c /\ isdigit u c = false.
+
   (* chain_from s a n: to the left of the name starting at s there are n more names, each followed by one dot and
-     nothing else; the FIRST name of the chain is no keyword (names after a dot may be spelled like keywords since rope
-     commit 2b4039e), no name before a dot is the word from itself (the relative-import test of _find_primary_start
+     nothing else; a name before a dot is no keyword unless it follows an attribute dot itself (attr_dot; rope 2b4039e and
+     06a46a8), no name before a dot is the word from itself (the relative-import test of _find_primary_start
      would fire); the chain starts at a, not preceded by a dot *)
   Inductive chain_from : Z -> Z -> nat -> Prop :=
   | chain_one s : 0 <= s -> stops_before s -> chain_from s s O
   | chain_more s s' e' a n :
       name_at s' e' -> e' + 1 = s -> chr e' cDOT -> s <= L ->
-      (n = O -> iskeyword (sliceC code L s' e') = false) ->
+      (iskeyword (sliceC code L s' e') = false \/ attr_dot s') ->
       text_eqb (sliceC code L s' e') s_from = false ->
       chain_from s' a n -> chain_from s a (S n).
 End S.
